@@ -19,6 +19,7 @@ from checks import c01
 
 META = {
     'property_id': 'C16',
+    'confirm_by_replay': True,   # bin/check re-executes the stimulus of every violation before it is reported
     'level': 'model_checking',
     'technique': 'TLA+ specs (CommitLog.tla with concurrency control; OccPublish.tla = publish path of a partition '
                  'leader) checked exhaustively by TLC; TLC-generated behaviours replayed on the real commit log and '
